@@ -78,7 +78,62 @@ pub fn gen_case(prop: &str, seed: u64, run: u64, pass: Pass) -> Case {
     c
 }
 
+/// the case a worker executes for run `i`: every fourth run also carries the previous run as an
+/// interlude so that T7 (position independence) is evaluated on it
+pub fn compose(prop: &str, seed: u64, i: u64, pass: Pass) -> Case {
+    let mut case = gen_case(prop, seed, i, pass);
+    if i % 4 == 1 {
+        case.interlude.push(gen_case(prop, seed, i - 1, pass));
+    }
+    case
+}
+
+/// execute a case; when it carries an interlude also check T7 (position independence)
 pub fn run_case(case: &Case, stats: &mut Stats) -> RunReport {
+    let first = run_plain(case, stats);
+    if case.interlude.is_empty() || first.violation.is_some() || first.invalid {
+        return first;
+    }
+    for c in &case.interlude {
+        let mut scratch = Stats::default();
+        let _ = run_plain(c, &mut scratch);
+    }
+    let mut scratch = Stats::default();
+    let again = run_plain(case, &mut scratch);
+    stats.bump("rule.T7.evaluated");
+    if again.hash != first.hash {
+        let mut diff = String::new();
+        for (a, b) in first.trace.iter().zip(again.trace.iter()) {
+            if a != b {
+                diff = format!("first execution : {}\nsecond execution: {}", a, b);
+                break;
+            }
+        }
+        if diff.is_empty() {
+            diff = format!(
+                "first execution: {} observed operations, second: {} (violation in second: {:?})",
+                first.trace.len(),
+                again.trace.len(),
+                again.violation.as_ref().map(|v| v.key.clone())
+            );
+        }
+        let mut r = first;
+        r.violation = Some(stats::Violation {
+            rule: "T7".into(),
+            op_index: 0,
+            key: "rule=T7 position-dependence".into(),
+            detail: format!(
+                "the same case executed twice in one process ({} other case(s) in between) observed different things, so an outcome depends on what ran earlier in the process\n{}",
+                case.interlude.len(),
+                diff
+            ),
+        });
+        return r;
+    }
+    first
+}
+
+fn run_plain(case: &Case, stats: &mut Stats) -> RunReport {
     match case.prop.as_str() {
         "C04" => c04::run_case(case, stats),
         "C18" => c18::run_case(case, stats),
@@ -112,6 +167,7 @@ pub fn required_probes(prop: &str) -> Vec<&'static str> {
             "rule.T3.evaluated",
             "rule.T4.evaluated",
             "rule.T6.evaluated",
+            "rule.T7.evaluated",
         ],
         "C11" => vec![
             "op.launch",
@@ -123,6 +179,9 @@ pub fn required_probes(prop: &str) -> Vec<&'static str> {
             "rule.P1.evaluated",
             "rule.P2.evaluated",
             "rule.P4.evaluated",
+            "rule.P5.evaluated",
+            "probe.launch_with_environment",
+            "rule.T7.evaluated",
             "real.spawned",
             "real.variant_plain",
             "real.variant_dull_color",
@@ -162,6 +221,7 @@ pub fn required_probes(prop: &str) -> Vec<&'static str> {
             "rule.R4.env_only.evaluated",
             "rule.R5.evaluated",
             "rule.R7.evaluated",
+            "rule.T7.evaluated",
             "probe.read_found_variable_set",
             "probe.same_variable_read_twice_in_one_run",
             "probe.help_rendered_with_variable_set",
@@ -261,7 +321,7 @@ fn worker(args: &[String]) -> i32 {
         }
         let _ = writeln!(out, "B {}", i);
         let _ = out.flush();
-        let case = gen_case(prop, seed, i, pass);
+        let case = compose(prop, seed, i, pass);
         let rep = run_case(&case, &mut stats);
         stats.bump("runs");
         if rep.invalid {
@@ -344,32 +404,72 @@ fn replay(args: &[String]) -> i32 {
         .and_then(|r| r.as_str().ok())
         .map(|s| s.to_string());
     let mut stats = Stats::default();
+    let hash_only = args.iter().any(|a| a == "--hash-only");
+    let skip_prelude = args.iter().any(|a| a == "--alone");
     let mut last = None;
-    for c in &cases {
+    let n = cases.len();
+    for (i, c) in cases.iter().enumerate() {
+        if skip_prelude && i + 1 < n {
+            continue;
+        }
         let rep = run_case(c, &mut stats);
         last = Some((c.prop.clone(), rep));
     }
-    match last {
-        Some((prop, rep)) => match rep.violation {
-            Some(v) => {
+    let (prop, rep) = match last {
+        Some(x) => x,
+        None => return 2,
+    };
+    if hash_only {
+        println!("HASH {:016x}", rep.hash);
+        return 0;
+    }
+    if want_rule.as_deref() == Some("T7x") {
+        // history dependence across cases: the same case, alone in a fresh process, must
+        // observe what it observed here after the recorded prelude
+        let alone = std::process::Command::new(std::env::current_exe().expect("exe"))
+            .args(["replay", path, "--alone", "--hash-only"])
+            .output();
+        let alone_hash = alone
+            .ok()
+            .and_then(|o| String::from_utf8(o.stdout).ok())
+            .and_then(|t| t.lines().find_map(|l| l.strip_prefix("HASH ").map(|h| h.to_string())));
+        return match alone_hash {
+            Some(h) if h != format!("{:016x}", rep.hash) => {
                 println!(
-                    "REPRODUCED property={} rule={} op={} key={}\n{}",
-                    prop, v.rule, v.op_index, v.key, v.detail
+                    "REPRODUCED property={} rule=T7x key=rule=T7x history-dependence\nafter the recorded prelude of {} case(s) the run observes {:016x}, alone in a fresh process it observes {}\nlast observations after the prelude:\n{}",
+                    prop,
+                    n - 1,
+                    rep.hash,
+                    h,
+                    rep.trace.join("\n")
                 );
-                match want_rule {
-                    Some(w) if w != v.rule => {
-                        println!("(recorded rule was {})", w);
-                        3
-                    }
-                    _ => 1,
-                }
+                1
             }
-            None => {
-                println!("NOT-REPRODUCED property={} (hash {:016x})", prop, rep.hash);
+            Some(_) => {
+                println!("NOT-REPRODUCED property={} (hash {:016x} with and without the prelude)", prop, rep.hash);
                 0
             }
-        },
-        None => 2,
+            None => 2,
+        };
+    }
+    match rep.violation {
+        Some(v) => {
+            println!(
+                "REPRODUCED property={} rule={} op={} key={}\n{}",
+                prop, v.rule, v.op_index, v.key, v.detail
+            );
+            match want_rule {
+                Some(w) if w != v.rule => {
+                    println!("(recorded rule was {})", w);
+                    3
+                }
+                _ => 1,
+            }
+        }
+        None => {
+            println!("NOT-REPRODUCED property={} (hash {:016x})", prop, rep.hash);
+            0
+        }
     }
 }
 
